@@ -45,6 +45,7 @@ func run(c *props.Ctx) {
 	plycommon.CLAIM2(e)
 	plycommon.ReaderPlumbing(e)
 	plycommon.REC1Driver(e)
+	plycommon.NAME1(e)
 	ft := plycommon.FormatTable(e, false, true)
 	decode := map[*ssa.Function]bool{}
 	for _, f := range e.DecodeScope() {
@@ -69,6 +70,7 @@ func run(c *props.Ctx) {
 	c.R.Floor("ATTR-1", 6)
 	c.R.Floor("REC-1", 14)
 	c.R.Floor("LAY-5", 2)
+	c.R.Floor("NAME-1", 5)
 	c.R.Floor("LAY-10", 11)
 	c.R.Floor("CFG-1", 8)
 }
